@@ -1,6 +1,7 @@
 """C06 - reported reconstruction errors are finite and equal the true error of the iterate
 they belong to; the last reported value is the error of the returned decomposition."""
 import numpy as np
+from vlib.cmp import close
 from hypothesis import strategies as st
 
 from vlib import gen
@@ -337,6 +338,14 @@ def o_notol(A):
                 continue
             true = A.check_reported(err, xv, A.mvec(snap, data, case), "callback/value", snap)
             n += 1
+        # the same run without any observer (no callback, no error list, no tolerance) must still work and end at
+        # the iterate the callback saw last (observing must not be what keeps the error bookkeeping alive)
+        res, _ = A.run(data, c, case["n_iter"], callback=None, return_errors=False)
+        if rec.calls:
+            last = A.mvec(rec.calls[-1][0], data, case)
+            got = A.mvec(A.copy(res), data, case)
+            scale = max(float(np.max(np.abs(last))), float(np.max(np.abs(xv))), 1e-300)
+            close(got, last, "unobserved_run/same_final_iterate", rel=1e-8, scale=scale)
         return _labels(case, n, true)
     return oracle
 
@@ -361,6 +370,9 @@ def subchecks(tier):
         add(f"parafac/{g}/return_errors", strat, o_errors_cb(P), quick=80, thorough=400)
     add("parafac/notol/callback", cp_case(opts=parafac_opts("plain"), tols=(0.0, None), iters=[1, 2, 3, 7]),
         o_notol(P), quick=40, thorough=100)
+    # line search with convergence checking switched off: the jump must still be compared with tracked errors
+    add("parafac/notol_linesearch/callback", cp_case(opts=parafac_opts("linesearch"), tols=(0.0, None), iters=[7, 8, 9, 12]),
+        o_notol(P), quick=30, thorough=100)
 
     # --- randomised_parafac ------------------------------------------------
     R = xi.RandomisedParafac()
